@@ -217,6 +217,19 @@ Section Spec.
       proj (value_of (String.concat "" g) i) j = value_of op i.
 End Spec.
 
+(* the names used in declared groups and the names of the joint loaders are loader names (not "index" / "ctx.<key>") *)
+Definition groups_named (groups : list (list string)) : Prop :=
+  forall g, In g groups ->
+    classify (String.concat "" g) = Named (String.concat "" g) /\ forall op, In op g -> classify op = Named op.
+
+Section CtxSpec.
+  Variable value : Type.
+  (* loaders mutate the dict they are handed (they cannot replace it) and record only keys of W item index *)
+  Definition writes_within (st : stack value) (W : string -> Z -> list string) : Prop :=
+    forall s i d, exists d', snd (s_load value st s i (Some d)) = Some d' /\
+      forall k, In k (map fst d') -> In k (map fst d) \/ In k (W s i).
+End CtxSpec.
+
 (* ---------- Python sequence semantics ---------- *)
 (* s[i] for i < 0 is s[len + i] *)
 Definition py_index (len i : Z) : Z := if i <? 0 then len + i else i.
